@@ -87,6 +87,13 @@ theorem agrees_torch (wf : WF d dims bw xs) (elems : List Nat) (ht : d.torchMapp
           tobytes := htb,
           tofile := by simp [Rep.tofile, Rep.tobytes, htb, Rep.wrote] }
 
+theorem torchView_mid (wf : WF d dims bw xs) (pre elems post : List Nat)
+    (hx : obsBits bw elems = xs) :
+    torchView (pre ++ elems ++ post) pre.length (prod dims) = elems := by
+  have hl : elems.length = prod dims := by
+    rw [← wf.len, ← hx]; simp [obsBits]
+  rw [← hl]; exact slice_mid pre elems post
+
 theorem agrees_packed (wf : WF d dims bw xs) (hb : bw = 2 ∨ bw = 4) :
     Agrees d dims bw xs (.packed { dtype := d, dims := dims, raw := packLE bw xs }) := by
   have hlen : (packLE bw xs).length = nbytes (prod dims) bw := by
@@ -472,6 +479,8 @@ theorem legal_agrees (wf : WF d dims bw xs) {r : Rep} (h : Legal d dims bw xs r)
   induction h with
   | array elems hu hx => exact agrees_array wf elems hu hx
   | torch elems ht hu hx => exact agrees_torch wf elems ht hu hx
+  | torchView pre elems post ht hu hx =>
+    rw [torchView_mid wf pre elems post hx]; exact agrees_torch wf elems ht hu hx
   | packed hb => exact agrees_packed wf hb
   | protoRaw p hd hdims hext hraw => exact agrees_protoRaw wf p hd hdims hext hraw
   | protoInt32 ys hl hy => exact agrees_protoInt32 wf ys hl hy
@@ -541,6 +550,7 @@ theorem serialize_roundtrip (wf : WF d dims bw xs) {r : Rep} (h : Legal d dims b
   cases h with
   | array elems hu hx => exact hraw _ (Legal.array elems hu hx) rfl
   | torch elems ht hu hx => exact hraw _ (Legal.torch elems ht hu hx) rfl
+  | torchView pre elems post ht hu hx => exact hraw _ (Legal.torchView pre elems post ht hu hx) rfl
   | packed hb => exact hraw _ (Legal.packed hb) rfl
   | lazy inner hi => exact hraw _ (Legal.lazy inner hi) rfl
   | protoRaw p hd hdims hext hraw' =>
